@@ -13,7 +13,7 @@ from ..common import Verdict, digest, rng_for, run_shards, seed, tier
 from . import c14
 
 PROP = "C15"
-N = {"quick": 400, "thorough": 8000}
+N = {"quick": 600, "thorough": 8000}
 FWS = ["base", "pydantic", "attrs", "dataclasses", "sqlmodel"]
 TOOL = 2
 
